@@ -125,13 +125,13 @@ class TerminalEnvironment(Environment):
         if not skip_tifa:
             tifa_analysis(report=self.report)
         if inputs:
-            set_input(inputs)
+            set_input(inputs, report=report)
         if skip_run:
             student = get_sandbox(report=report)
         else:
             print(f"{REVERSE} YOUR CODE {RESET} We ran your code. Here's the output:\n")
             if trace:
-                start_trace()
+                start_trace(report=self.report)
             if real_io:
                 allow_real_io()
             student = run(report=report, threaded=threaded)
